@@ -428,7 +428,7 @@ func init() {
 	mut("C17", "RenewContract keeps the file size but resets capacity to zero", true, "capacity|RenewContract#1",
 		Edit{r4, "renewal.NewContract.Capacity = fc.Filesize", "renewal.NewContract.Capacity = 0"})
 	mut("C17", "form Validate no longer rejects early proof heights", true, "validate-bounds|form:proof-height-min",
-		Edit{"rhp/v4/validation.go", "\tcase req.Contract.ProofHeight < minProofHeight:\n\t\treturn rpcBadRequestError(\"proof height must be greater than %v\", minProofHeight)\n", ""})
+		Edit{"rhp/v4/validation.go", "\tcase req.Contract.ProofHeight < minProofHeight:\n\t\treturn rpcBadRequestError(\"proof height must be greater than %v\", minProofHeight)\n", "\tcase req.Contract.ProofHeight == 0 && minProofHeight > 0:\n\t\treturn rpcBadRequestError(\"proof height must be greater than %v\", minProofHeight)\n"})
 	mut("C17", "renew Validate accepts a proof height equal to the existing one", true, "validate-bounds|renew:after-existing",
 		Edit{"rhp/v4/validation.go", "case req.Renewal.ProofHeight <= existing.ProofHeight:", "case req.Renewal.ProofHeight < existing.ProofHeight:"})
 	mut("C17", "minProofHeight ignores the chain tip", true, "validate-bounds|minProofHeight:later-tip",
